@@ -158,6 +158,11 @@ Section Hole.
     | _, _ => None
     end.
 
+  (* dist_match: for each new interval the first existing cell whose (from, to) is within tol: pairs (cell, new index) *)
+  Definition cell_map_of (froms tos : list Q) (fts : list (Q * Q)) (tol : Q) : list (nat * nat) :=
+    flat_map (fun '(i, (f, t)) => match first_match f t froms tos tol 0 with Some c => [(c, i)] | None => [] end)
+             (combine (seq 0 (length fts)) fts).
+
   Definition add_interval (h : hole) (name : nat) (fts : list (Q * Q)) (values : list oq) (tol : Q) : hole :=
     let nv := length (h_verts h) in
     match h_ft h with
@@ -173,10 +178,7 @@ Section Hole.
            h_cdata := pad_all (length fts) (h_cdata h) ++ [(name, values)] |}
     | Some (froms, tos) =>
         let nc := length (h_cells h) in
-        (* dist_match: for each new interval the first existing cell whose (from, to) is within tol *)
-        let cell_map :=
-          flat_map (fun '(i, (f, t)) => match first_match f t froms tos tol 0 with Some c => [(c, i)] | None => [] end)
-                   (combine (seq 0 (length fts)) fts) in
+        let cell_map := cell_map_of froms tos fts tol in
         let new_fts := unmatched cell_map fts in
         let flat := flatten_ft new_fts in
         let uni := uniqQ flat in
@@ -256,6 +258,10 @@ Section Hole.
     end.
 End Hole.
 
+
+(* the hole's position function: Drillhole.desurvey for its collar and survey table *)
+Definition pos_of {ang : Type} (dir : ang -> V3) (collar : V3) (s : list (Q * ang)) (d : Q) : V3 :=
+  match desurvey dir collar s d with Some p => p | None => vzero end.
 
 (* executable form of "value v of vertex child [name] is attached to a vertex whose DEPTH is within tol of d" *)
 Definition attachedb (h : hole) (name : nat) (d v tol : Q) : bool :=
